@@ -9,6 +9,9 @@ import importlib.util as _u
 _s = _u.spec_from_file_location('gen16', os.path.join(HERE, 'gen.py')); _gen = _u.module_from_spec(_s); _s.loader.exec_module(_gen)
 
 PROPERTY = 'C16'
+ORACLE_SCANS = True     # props/C16/oracle.cpp searches its own operand battery: no inputs needed from the verifier's trace
+NATIVE_FLAGS = ['-mavx2', '-mavx512f', '-D__AVX512__']
+NATIVE_SOURCES = ['props/C16/wrappers.cpp']
 LEVEL = 'proof'
 TABLE = json.load(open(os.path.join(HERE, 'table.json')))
 def _check_table():
